@@ -63,7 +63,8 @@ Definition good (a : thread) : bool :=
 Definition entry_of (t : tid) (a : thread) (e : entry) : Prop :=
   e_owner e = t /\ e_ik e = rq_ik (t_req a) /\
   e_ref e = (if is_tx_kind (rq_kind (t_req a)) then rq_ref (t_req a) else 0%N) /\
-  e_reverts e = rev_key (t_req a) /\ e_txid e = t_txid a /\ e_kind e = rq_kind (t_req a).
+  e_reverts e = rev_key (t_req a) /\ e_txid e = t_txid a /\ e_kind e = rq_kind (t_req a) /\
+  e_meta e = (if is_tx_kind (rq_kind (t_req a)) then 0%N else rq_meta (t_req a)).
 
 Definition TL (t : tid) (a : thread) : Prop :=
   (t_pc a <> PFinished -> t_resp a = None) /\
@@ -120,9 +121,7 @@ Definition eff (s s' : state) (t : tid) (a a' : thread) : Prop :=
      match r with
      | ROk x => (t_pc a = PUnlocked /\ good a = true /\ x = t_txid a /\ t_entry a' = t_entry a) \/
                 (t_pc a = PDone /\ x = None /\ t_txid a = None /\ t_entry a' = t_entry a) \/
-                (exists e, t_pc a = PIkLookup (Some e) /\
-                   ((same_kind (e_kind e) (rq_kind (t_req a)) = true /\ x = e_txid e) \/
-                    (same_kind (e_kind e) (rq_kind (t_req a)) = false /\ x = None)))
+                (exists e, t_pc a = PIkLookup (Some e) /\ is_outcome_of (t_req a) e = true /\ x = e_txid e)
      | RErr _ => True
      | RCrashed => False
      end) /\
@@ -261,8 +260,7 @@ Ltac s_resp H0 H1 := let r := fresh "r" in let E := fresh "E" in
              repeat match goal with Q : covers _ _ _ = _ |- _ => rewrite Q | Q : t_postings _ = _ |- _ => rewrite Q end;
              reflexivity
            | right; left; split; [reflexivity|split; [reflexivity|split; [|reflexivity]]]; apply H1; assumption
-           | right; right; eexists; split; [reflexivity|];
-             first [ left; split; [assumption|reflexivity] | right; split; [assumption|reflexivity] ] ] ].
+           | right; right; eexists; split; [reflexivity|]; split; [assumption|reflexivity] ] ].
 Ltac s_found := let K := fresh "K" in let F := fresh "F" in
   intros K F; cbn in F |- *; first [ left; reflexivity | discriminate F | congruence | right; congruence
    | match goal with Q : negb ?f = false |- _ => destruct f; [left; reflexivity|discriminate Q] end ].
